@@ -156,4 +156,12 @@ theorem exists_noAdj_ge (S : Matrix) (o : Int) (ho : o ≤ 0) (H : ∀ x y, S x 
 where
   compat_mleft : ∀ k, compat .m k = true := by intro k; cases k <;> rfl
 
+/-- the same for local alignments: the surgery keeps the aligned segments -/
+theorem exists_noAdj_ge_local (S : Matrix) (o : Int) (ho : o ≤ 0) (H : ∀ x y, S x 0 + S 0 y ≤ S x y)
+    (r q : List Nat) (a : Aln) (h : IsLocal a r q) :
+    ∃ a', IsLocal a' r q ∧ NoAdj a' ∧ scoreAff S o a ≤ scoreAff S o a' := by
+  obtain ⟨r1, r2, r3, q1, q2, q3, hr, hq, hg⟩ := h
+  obtain ⟨a', hg', hn, hle⟩ := exists_noAdj_ge S o ho H r2 q2 a hg
+  exact ⟨a', ⟨r1, r2, r3, q1, q2, q3, hr, hq, hg'⟩, hn, hle⟩
+
 end Biogo.Proofs.NoAdjSuffices
